@@ -1,0 +1,32 @@
+//go:build verif
+
+// Contracts for govc (contract-based deductive verification, /verif). Comment-only file:
+// it is compiled only under the build tag "verif" and contains no code.
+
+package bal_slb
+
+//@ spec eligible(b *BackendRR) bool := b.backend.avail && b.weight > 0
+//@ spec esum(backs BackendList, n int) int := n <= 0 ? 0 : esum(backs, n-1) + (eligible(backs[n-1]) ? backs[n-1].current : 0)
+//@ spec wfList(backs BackendList) bool := (forall k int :: 0 <= k && k < len(backs) ==> backs[k] != nil && backs[k].backend != nil) && (forall j int :: forall k int :: 0 <= j && j < k && k < len(backs) ==> backs[j] != backs[k] && backs[j].backend != backs[k].backend)
+//@ spec bounded(backs BackendList) bool := len(backs) <= 1000000 && (forall k int :: 0 <= k && k < len(backs) ==> -1099511627776 <= backs[k].current && backs[k].current <= 1099511627776 && backs[k].weight <= 1099511627776)
+
+//@ func smoothBalance
+//@   props C01,C03
+//@   nopanic
+//@   requires wfList(backs) && bounded(backs)
+//@   note weights and current weights are assumed bounded by 2^40 and the list by 10^6 entries, so that the running sums do not overflow int (the loader puts no upper bound on weights)
+//@   modifies any BackendRR.current
+//@   let N := len(backs)
+//@   ensures[error_only_if_no_eligible_backend] result1 != nil ==> (forall k int :: 0 <= k && k < N ==> !old(eligible(backs[k])))
+//@   ensures[error_if_no_eligible_backend] (forall k int :: 0 <= k && k < N ==> !old(eligible(backs[k]))) ==> result1 != nil
+//@   ensures[error_changes_nothing] result1 != nil ==> result0 == nil && (forall k int :: 0 <= k && k < N ==> backs[k].current == old(backs[k].current))
+//@   ensures[picks_eligible_backend_of_maximal_current_weight] result1 == nil ==> (exists m int :: 0 <= m && m < N && old(eligible(backs[m])) && result0 == backs[m].backend && (forall k int :: 0 <= k && k < N && old(eligible(backs[k])) ==> old(backs[k].current) <= old(backs[m].current)) && backs[m].current == old(backs[m].current) + backs[m].weight - old(esum(backs, N)))
+//@   ensures[other_eligible_backends_gain_their_weight] result1 == nil ==> (forall k int :: 0 <= k && k < N && old(eligible(backs[k])) && backs[k].backend != result0 ==> backs[k].current == old(backs[k].current) + backs[k].weight)
+//@   ensures[ineligible_backends_untouched] forall k int :: 0 <= k && k < N && !old(eligible(backs[k])) ==> backs[k].current == old(backs[k].current)
+//@   let c := rangeindex + 1
+//@   loop 1 invariant[count] 0 <= c && c <= N
+//@   loop 1 invariant[total_is_prefix_sum] total == old(esum(backs, c)) && -c*1099511627776 <= total && total <= c*1099511627776
+//@   loop 1 invariant[best_nil_iff_none_seen] (best == nil) ==> (forall k int :: 0 <= k && k < c ==> !old(eligible(backs[k])))
+//@   loop 1 invariant[best_is_seen_argmax] best != nil ==> (exists m int :: 0 <= m && m < c && best == backs[m] && old(eligible(backs[m])) && max == old(backs[m].current)) && (forall k int :: 0 <= k && k < c && old(eligible(backs[k])) ==> old(backs[k].current) <= max)
+//@   loop 1 invariant[visited_eligible_stepped] forall k int :: 0 <= k && k < c && old(eligible(backs[k])) ==> backs[k].current == old(backs[k].current) + backs[k].weight
+//@   loop 1 invariant[rest_untouched] forall k int :: 0 <= k && k < N && (k >= c || !old(eligible(backs[k]))) ==> backs[k].current == old(backs[k].current)
